@@ -1,33 +1,56 @@
 #!/bin/bash
-# usage: matrix.sh [tier] - for every seeded change: apply to $VERIF_REPO (default /repo), run the checks of every
-# property whose anchored code the change touches, revert. One line per change.
-T=${1:-quick}
+# usage: matrix.sh [tier] [id-pattern] [lanes]
+# For every seeded change (seeded/<pattern>, default M*): apply it to a scratch worktree of the repository,
+# run the checks of every property whose anchored code the change touches, one line per change.
+# Runs <lanes> changes in parallel, each lane in its own worktree (VERIF_REPO) with its own output
+# directory (VERIF_OUT), so /repo and /verif/evidence are never touched.
+T=${1:-quick}; PAT=${2:-M*}; LANES=${3:-4}
+cd "$(dirname "$0")"; V=$(pwd)
 R=${VERIF_REPO:-/repo}
+W=$((16 / LANES)); [ $W -lt 2 ] && W=2
 mkdir -p matrix_logs
-for d in seeded/M*/; do
-  id=$(basename $d)
-  files=$(grep '^+++ b/' $d/patch.diff | sed 's|+++ b/||')
-  props=""
-  for f in $files; do
+OUT=matrix_logs/MATRIX_$(date +%Y%m%d_%H%M%S)_$T.txt
+ids=$(cd seeded && ls -d $PAT 2>/dev/null | grep '^M[0-9]' )
+props_for() {
+  local props=""
+  for f in $(grep '^+++ b/' $1 | sed 's|+++ b/||'); do
     case $f in
       revocation.go|configparser.go|caddyfile.go|config/*) props="$props C03 C19 C01";;
       crl/crlrevocationchecker.go) props="$props C10 C15 C13 C01 C20";;
       crl/crlrepository/*) props="$props C08 C09 C10 C11 C12 C13 C16 C04 C01 C15 C20";;
       crl/crlstore/*) props="$props C18 C09 C08 C11 C12 C16 C10 C01 C20";;
       crl/crlloader/*) props="$props C20 C10 C15";;
-      crl/crlreader/*|core/asn1parser/*|core/hashing/*|core/signatureverify/*|core/pemreader/*) props="$props C06 C07 C04 C01";;
+      crl/crlreader/*|core/asn1parser/*|core/hashing/*|core/signatureverify/*|core/pemreader/*) props="$props C06 C07 C04 C01 C08 C11";;
       ocsp/*) props="$props C02 C05 C14 C13";;
-      core/certificatechains.go) props="$props C04 C02 C05";;
+      core/certificatechains.go) props="$props C04 C02 C05 C07";;
       *) props="$props C01";;
     esac
   done
-  props=$(echo $props | tr ' ' '\n' | sort -u | tr '\n' ' ')
-  git -C $R checkout -q -- . ; git -C $R apply "$(pwd)/${d}patch.diff" || { echo "$id: patch does not apply"; continue; }
-  line="$id [$(cat $d/meta.json | python3 -c 'import json,sys;print(json.load(sys.stdin)["breaks_property"])')]"
-  for p in $props; do
-    timeout 1500 ./check $p $T > matrix_logs/${id}_$p.log 2>&1; rc=$?
-    if [ $rc -eq 1 ]; then line="$line $p:VIOLATION"; elif [ $rc -ne 0 ]; then line="$line $p:inconclusive"; else line="$line $p:-"; fi
+  echo $props | tr ' ' '\n' | sort -u | tr '\n' ' '
+}
+lane() {
+  local i=$1; shift
+  local wt=/tmp/mx_lane_$i
+  git -C $R worktree remove --force $wt >/dev/null 2>&1; rm -rf $wt
+  git -C $R worktree add -q --detach $wt HEAD || return
+  export VERIF_REPO=$wt VERIF_OUT=/tmp/mx_out_$i
+  mkdir -p $VERIF_OUT
+  for id in "$@"; do
+    d=seeded/$id
+    git -C $wt checkout -q -- . ; git -C $wt clean -fdq
+    git -C $wt apply "$V/$d/patch.diff" || { echo "$id: patch does not apply" >> $OUT; continue; }
+    line="$id [$(python3 -c 'import json,sys;print(json.load(open(sys.argv[1]))["breaks_property"])' $d/meta.json)]"
+    for p in $(props_for $d/patch.diff); do
+      timeout 1500 ./check $p $T -workers $W > matrix_logs/${id}_$p.log 2>&1; rc=$?
+      if [ $rc -eq 1 ]; then line="$line $p:VIOLATION"; elif [ $rc -ne 0 ]; then line="$line $p:inconclusive"; else line="$line $p:-"; fi
+    done
+    echo "$line" | tee -a $OUT
   done
-  git -C $R checkout -q -- .
-  echo "$line"
-done
+  git -C $R worktree remove --force $wt >/dev/null 2>&1; rm -rf $wt $VERIF_OUT
+}
+n=0; declare -a L
+for id in $ids; do L[$((n % LANES))]="${L[$((n % LANES))]} $id"; n=$((n+1)); done
+for i in $(seq 0 $((LANES-1))); do [ -n "${L[$i]}" ] && lane $i ${L[$i]} & done
+wait
+sort -o $OUT $OUT
+echo "matrix written to $OUT"
